@@ -222,7 +222,7 @@ PROPS = {
              "non-root label physically written in an earlier name and not inside the header; RDATA of SRV / CH A / unknown "
              "types and the TSIG RDATA are octet-identical to the input (no pointer can have been emitted there); no name "
              "written while compression was disabled contains a pointer; none at all when it was disabled throughout. "
-             "evidence counts pointers checked (outcome_histogram.pointers-checked)",
+             "evidence counts pointers checked (outcome_histogram.pointers-checked); two thirds of the programs with a 70 000-octet buffer start with one padding record that puts the following names within 90 octets of offset 16384 (the first offset a 14-bit pointer cannot express)",
         assumptions=COMMON_ASSUMPTIONS,
         quick=plans(dict(build="dbg", nshards=16), dict(build="miri", nshards=4, timeout=900)),
         thorough=plans(dict(build="dbg", nshards=16), dict(build="rel", nshards=16), dict(build="asan", nshards=16, scale=0.2), dict(build="miri", nshards=16, timeout=3000)),
@@ -435,7 +435,7 @@ PROPS = {
              "==, Hash, cmp, eq_or_subdomain_of, LowercaseName, labels; triples: transitivity and sorting; random and "
              "mutated text strings: acceptance equals the reference parser's; random NameBuilder programs with "
              "failed-operation atomicity. distinct = outcome classes (label count, wire length bucket, wildcard, "
-             "escapes; pair relation; text verdict; builder outcome)",
+             "escapes; pair relation; text verdict; builder outcome); pools also contain wire-confusable names: one label whose octets are junk plus the wire form of a suffix of another pool name",
         assumptions=COMMON_ASSUMPTIONS + ["hash comparison uses std DefaultHasher with its fixed keys; a 2^-64 collision would be a false alarm"],
         quick=plans(dict(build="dbg", nshards=16), dict(build="miri", nshards=4, timeout=900)),
         thorough=plans(dict(build="dbg", nshards=16), dict(build="rel", nshards=16),
